@@ -128,6 +128,8 @@ def m_option_filter(I, st, c, args, body, t):
                 s2, r = I.call_value(s, args[1], [RefV(cell)])
                 if not isinstance(r, BoolV):
                     r = BoolV(None, None, deps_of(r))
+                if body is not None and body.name.endswith("get_message") and "gate_preds" in I.side:
+                    I.side["gate_preds"].append(r)
                 if r.val is not False:
                     sT = s2.copy()
                     if I.refine(sT, r, True):
@@ -1281,3 +1283,87 @@ class Models:
         if name.startswith("lazy_static::"):
             return m_opaque("lazy")
         return None
+
+
+# --------------------------------------------------------------------------- additions (presentation / options paths)
+
+def m_unwrap_or_else(I, st, c, args, body, t):
+    o = opt_cases(I, st, args[0])
+    good = "Some" if o.adt == OPT else "Ok"
+    out = []
+    if o.may(good):
+        s = st.copy()
+        if I.install_guard(s, o.variants[good][1]):
+            out.append((s, I.resolve(s, o.payload(good))))
+    bad = [n for n in o.variants if n != good]
+    if bad:
+        s = st.copy()
+        try:
+            a = [] if o.adt == OPT else [o.payload(bad[0])]
+            s2, r = I.call_value(s, args[1], a)
+            out.append((s2, r))
+        except Diverge:
+            pass
+    return join_results(I, out)
+
+
+def m_opt_both(ty):
+    def m(I, st, c, args, body, t):
+        d = frozenset()
+        for a in args:
+            d |= deps_of(deref(I, st, a) if isinstance(a, RefV) else a)
+        return st, EnumV(OPT, {"None": ((), {}), "Some": ((OpaqueV(ty, ("checked", ty), d),), {})})
+    return m
+
+
+def m_res_both(I, st, c, args, body, t):
+    return st, EnumV(RES, {"Ok": ((TupleV(()),), {}), "Err": ((OpaqueV("error"),), {})})
+
+
+def m_bt_entry(I, st, c, args, body, t):
+    return st, StructV("BEntry", {"key": args[1]})
+
+
+def m_bt_or_insert(I, st, c, args, body, t):
+    v = args[1]
+    if isinstance(v, IntV):
+        lo, hi = ty_range(v.ty)
+        v = IntV(v.ty, None, min(v.lo, 0), hi, None, frozenset([("pre", "count")]), fresh_sid())
+    cell = I.new_cell(st, v)
+    return st, RefV(cell, (), True)
+
+
+def m_bt_and_modify(I, st, c, args, body, t):
+    v = IntV("i32", None, 0, ty_range("i32")[1], None, frozenset([("pre", "count")]), fresh_sid())
+    cell = I.new_cell(st, v)
+    s2, _ = I.call_value(st, args[1], [RefV(cell, (), True)])
+    return s2, args[0]
+
+
+def _extend(models):
+    E = models.exact
+    E["std::option::Option::<T>::unwrap_or_else"] = m_unwrap_or_else
+    E["std::result::Result::<T, E>::unwrap_or_else"] = m_unwrap_or_else
+    E["chrono::TimeDelta::try_seconds"] = m_opt_both("chrono::TimeDelta")
+    E["chrono::DateTime::<Tz>::checked_add_signed"] = m_opt_both("chrono::DateTime<chrono::Utc>")
+    E["chrono::DateTime::<Tz>::checked_sub_signed"] = m_opt_both("chrono::DateTime<chrono::Utc>")
+    E["std::collections::BTreeMap::<K, V>::new"] = m_opaque("BTreeMap")
+    E["std::collections::BTreeMap::<K, V, A>::entry"] = m_bt_entry
+    E["std::collections::btree_map::Entry::<'a, K, V, A>::or_insert"] = m_bt_or_insert
+    E["std::collections::btree_map::Entry::<'a, K, V, A>::or_default"] = m_bt_or_insert
+    E["std::collections::btree_map::Entry::<'a, K, V, A>::and_modify"] = m_bt_and_modify
+    E["std::fmt::Formatter::<'a>::write_fmt"] = m_res_both
+    E["core::fmt::Formatter::<'a>::write_fmt"] = m_res_both
+    E["std::fmt::Write::write_fmt"] = m_res_both
+    E["std::fmt::Formatter::<'a>::write_str"] = m_res_both
+
+
+_orig_init = Models.__init__
+
+
+def _init2(self):
+    _orig_init(self)
+    _extend(self)
+
+
+Models.__init__ = _init2
